@@ -39,7 +39,7 @@ def render_time(k):
     if k['s'] == 'absent':
         return None
     if k['s'] == 'ill':
-        return {'two-fields': '12:00', 'alpha': 'aa:bb:cc', 'tt-alpha': '12:00:00:xx', 'five-fields': '12:00:00:00:00',
+        return {'two-fields': '12:00', 'alpha': 'aa:bb:cc', 'tt-alpha': '12:00:00:xx', 'tt-inf': '12:00:00:inf', 'tt-huge': '12:00:00:1e999', 'tt-nan': '12:00:00:nan', 'five-fields': '12:00:00:00:00',
                 'blank': ' '}[k['v']]
     f = k['f']
     base = '%02d:%02d:%02d' % (f[0], f[1], f[2])
